@@ -164,11 +164,12 @@ def handleR (op : String) : Option (R String) :=
       let K1 ← nat; let L1 ← layout3; let K2 ← nat; let L2 ← layout3; done
       pure (fmt (decide (psaddValid L1 L2)) (psaddCase K1 L1 K2 L2))
   | "b_rs" => some do
-      let N ← nat; let I ← layout3; let rN ← nat; let Rl ← layout3; let plen ← nat; done
-      pure (fmt (decide (rsValid N I rN Rl plen)) (rsCase N I rN Rl plen))
+      let N ← nat; let I ← layout3; let rN ← nat; let Rl ← layout3; let plen ← nat; let prof ← nat; done
+      pure (fmt (decide (rsValid N I rN Rl plen)) (rsCase N I rN Rl plen (weightOracle prof)))
   | "b_rwp" => some do
-      let N ← nat; let rnum ← nat; let rden ← nat; let I ← layout3; let nx ← nat; let ny ← nat; let plen ← nat; done
-      pure (fmt (decide (rwpValid N rnum rden I plen)) (rwpCase N rnum rden I nx ny plen))
+      let N ← nat; let rnum ← nat; let rden ← nat; let I ← layout3; let nx ← nat; let ny ← nat; let plen ← nat; let prof ← nat; done
+      -- ResamplingWithPrior normalises the weights of the subset it resamples (log_sum_exp): worst-case comparisons
+      pure (fmt (decide (rwpValid N rnum rden I plen)) (rwpCase N rnum rden I nx ny plen (weightOracle (if prof = 8 then 8 else 2))))
   | "b_ee" => some do
       let ls ← nat; let cs ← nat; let m ← nat; let full ← bool
       let prow ← nat; let pcol ← nat; let wlen ← nat; let pwlen ← nat; let llen ← nat; let tpr ← nat; let tpc ← nat
